@@ -51,6 +51,7 @@ def check(repo, col, tier):
     view_trainables(repo, col, "R-C10-viewtrain")
     filter_rows(repo, col, "R-C10-viewtrain")
     trainable_count(repo, col, "R-C10-viewtrain")
+    view_count(repo, col, "R-C10-viewtrain")
     _tojax(repo, col)
     # a group that shares a trainable must still name its own compartments after set_ncomp renumbered the rows (shared with C13/C19)
     from . import c13 as _c13
@@ -707,6 +708,23 @@ def view_trainables(repo, col, R):
                   f"the count becomes {v.short(80)}", node=s_.node)
     if not cnt:
         col.unk(R, fi, "the base's number of trainable parameters goes down by the view's", "no count update found", node=fi.node)
+
+
+def view_count(repo, col, R):
+    """A view's `num_trainable_params` counts the entries of ITS OWN index list (what `_set_trainables_in_view` left in view): it is what
+    `view.delete_trainables()` subtracts from the module's count."""
+    fi = repo.method("View", "__init__")
+    ex = idx.expander(repo, fi)
+    st = [s_ for s_ in ex.stores if s_.kind == "attr" and s_.key.name == "num_trainable_params" and s_.base.op == "param" and s_.base.name == "self"]
+    if not st:
+        col.unk(R, fi, "a view counts its own trainables", "count not found", node=fi.node)
+        return
+    v = st[-1].value
+    src = T.find_all(v, lambda x: x.op == "attr" and x.name == "indices_set_by_trainables")
+    own = bool(src) and all(x.args[0].op == "param" and x.args[0].name == "self" for x in src)
+    col.check(own, R, fi, "a view counts its own trainables", "sum of len(inds) over self.indices_set_by_trainables",
+              f"the view's count is computed from {sorted({x.args[0].short(30) for x in src})}: it is the module's total, and view.delete_trainables() subtracts it "
+              f"from the module's count", node=st[-1].node)
 
 
 def trainable_count(repo, col, R):
